@@ -4,3 +4,8 @@ claim("C03", "proof",
       "For all 1792 encodings the complete set of bus traces of Z80::emulate (operands/registers/memory symbolic) equals the documented M-cycle sequences, incl. address class per cycle and the predicate selecting each timing variant; interrupt entry totals 13/19/11.",
       "Trusted: rustc MIR building, mirfacts serialisation, zxwalk transfer functions, oracle/z80.py (self-checked against documented totals). Not decided: machine-side contention (C04).",
       "DESIGN.md §3 C03")
+claim("C02", "proof",
+      "abstract interpretation of MIR: complete path sets of Z80::emulate with symbolic line levels/flip-flops; guards, post-states and sibling traces checked by constants and bit provenance",
+      "All paths of one emulate step with symbolic skip/halted/IFF/mode/NMI/INT are classified and checked (guard, NMI-first, IFF effects, HALT release, pushed PC, vector provenance); pending-prefix => skip_interrupt over all 1792 encodings; 768 pending-prefix sibling comparisons; HALT and RETN/RETI post-states.",
+      "Trusted: rustc MIR building, mirfacts, zxwalk. Not decided: when the machine asserts INT (C05).",
+      "DESIGN.md §3 C02")
